@@ -253,34 +253,38 @@ static int pip_exact(const Path64& poly, const Point64& q) {
   return inside ? PIP_IN : PIP_OUT;
 }
 static void judge_pip(Ctx& ctx, const Case& c, bool from_replay) {
+  // POLY[i] is judged against the query points Q[i]
   const Paths64& PP = c.P("POLY"); const Paths64& QQ = c.P("Q");
-  if (PP.size() != 1 || QQ.size() != 1) return;
-  const Path64& poly = PP[0]; const Path64& Q = QQ[0];
+  if (PP.size() != QQ.size()) return;
   const int64_t LIM = 1ll << 25;
-  // premises: >= 3 points, not contained in one horizontal line, |coord| <= 2^25
-  bool horiz = true; for (auto& p : poly) if (p.y != poly[0].y) horiz = false;
-  if (poly.size() < 3 || horiz) { ctx.count("pip_polygons_rejected_fewer_than_3_or_horizontal"); return; }
-  Paths64 both = PP; both.push_back(Q);
-  if (max_abs_coord(both) > LIM) { ctx.count("pip_polygons_rejected_range"); return; }
-  long long calls = 0, cls[3] = { 0, 0, 0 };
+  long long calls = 0, cls[3] = { 0, 0, 0 }, polys = 0;
   ctx.begin(c);
-  for (const Point64& q : Q) {
-    int truth = pip_exact(poly, q);
-    PointInPolygonResult r = PointInPolygon(q, poly);
-    int got = r == PointInPolygonResult::IsOn ? PIP_ON : (r == PointInPolygonResult::IsInside ? PIP_IN : PIP_OUT);
-    ++calls; ++cls[truth];
-    if (got != truth) {
-      Case w; w.kv = c.kv; w.kv.erase("bundle"); w.p64["POLY"] = PP; w.p64["Q"] = Paths64(1, Path64(1, q));
-      ctx.evaluated(calls);
-      vio(ctx, "C18.point_in_polygon", { std::string("expected_") + kPipName[truth] + "_got_" + kPipName[got] }, w,
-        "PointInPolygon(" + spt(q) + ") = " + kPipName[got] + " but the exact even-odd/on-edge test says " + kPipName[truth] +
-        " (polygon of " + std::to_string(poly.size()) + " points)");
-      return;
+  for (size_t pi = 0; pi < PP.size(); ++pi) {
+    const Path64& poly = PP[pi]; const Path64& Q = QQ[pi];
+    // premises: >= 3 points, not contained in one horizontal line, |coord| <= 2^25
+    bool horiz = true; for (auto& p : poly) if (p.y != poly[0].y) horiz = false;
+    if (poly.size() < 3 || horiz) { ctx.count("pip_polygons_rejected_fewer_than_3_or_horizontal"); continue; }
+    Paths64 both(1, poly); both.push_back(Q);
+    if (max_abs_coord(both) > LIM) { ctx.count("pip_polygons_rejected_range"); continue; }
+    ++polys;
+    for (const Point64& q : Q) {
+      int truth = pip_exact(poly, q);
+      PointInPolygonResult r = PointInPolygon(q, poly);
+      int got = r == PointInPolygonResult::IsOn ? PIP_ON : (r == PointInPolygonResult::IsInside ? PIP_IN : PIP_OUT);
+      ++calls; ++cls[truth];
+      if (got != truth) {
+        Case w; w.kv = c.kv; w.kv.erase("bundle"); w.p64["POLY"] = Paths64(1, poly); w.p64["Q"] = Paths64(1, Path64(1, q));
+        ctx.evaluated(calls);
+        vio(ctx, "C18.point_in_polygon", { std::string("expected_") + kPipName[truth] + "_got_" + kPipName[got] }, w,
+          "PointInPolygon(" + spt(q) + ") = " + kPipName[got] + " but the exact even-odd/on-edge test says " + kPipName[truth] +
+          " (polygon of " + std::to_string(poly.size()) + " points)");
+        return;
+      }
     }
   }
   ctx.evaluated(calls);
   ctx.count("pip_calls", calls);
-  ctx.count("pip_polygons", 1);
+  ctx.count("pip_polygons", polys);
   ctx.count("pip_truth_on", cls[0]); ctx.count("pip_truth_inside", cls[1]); ctx.count("pip_truth_outside", cls[2]);
   if (!from_replay) ctx.note_case(c, (cls[0] > 0) + (cls[1] > 0) + (cls[2] > 0) >= 2);
 }
@@ -513,10 +517,10 @@ static uint64_t gen_u64(Rng& r) {
     default: { int b = r.irange(0, 63); return (1ull << b) + (uint64_t)r.range(-2, 2); }
   }
 }
-static Case gen_mul(Rng& r, uint64_t) {
+static Case gen_mul(Rng& r, uint64_t, int mul) {
   Case c; c.set("kind", "mul"); c.seti("bundle", 1);
   Paths64 T;
-  for (int i = 0; i < 64; ++i) T.push_back(P1((int64_t)gen_u64(r), (int64_t)gen_u64(r)));
+  for (int i = 0; i < 64 * mul; ++i) T.push_back(P1((int64_t)gen_u64(r), (int64_t)gen_u64(r)));
   c.p64["T"] = T; return c;
 }
 
@@ -586,10 +590,10 @@ static Path64 gen_pae_item(Rng& r, std::map<std::string, long long>& cnt) {
   auto bv = [&]() { int64_t v = kB22[r.irange(0, 21)]; int64_t j = r.range(-2, 2); if ((j > 0 && v > I64MAX - j) || (j < 0 && v < I64MIN - j)) j = 0; return v + j; };
   return pae_item(bv(), bv(), bv(), bv());
 }
-static Case gen_pae(Rng& r, uint64_t, Ctx& ctx) {
+static Case gen_pae(Rng& r, uint64_t, Ctx& ctx, int mul) {
   Case c; c.set("kind", "pae"); c.seti("bundle", 1);
   std::map<std::string, long long> cnt;
-  Paths64 T; for (int i = 0; i < 64; ++i) T.push_back(gen_pae_item(r, cnt));
+  Paths64 T; for (int i = 0; i < 64 * mul; ++i) T.push_back(gen_pae_item(r, cnt));
   for (auto& e : cnt) ctx.count(e.first, e.second);
   c.p64["T"] = T; return c;
 }
@@ -629,20 +633,19 @@ static Path64 gen_tri_item(Rng& r, int B, std::map<std::string, long long>& cnt)
   auto bv = [&]() { int64_t v = kB22[r.irange(0, 21)]; int64_t j = r.range(-2, 2); if ((j > 0 && v > I64MAX - j) || (j < 0 && v < I64MIN - j)) j = 0; return v + j; };
   return tri_item(Point64(bv(), bv()), Point64(bv(), bv()), Point64(bv(), bv()));
 }
-static Case gen_tri(Rng& r, uint64_t sub, Ctx& ctx) {
+static Case gen_tri(Rng& r, uint64_t sub, Ctx& ctx, int mul) {
   Case c; c.set("kind", "tri"); c.seti("bundle", 1);
   int B = 1 + (int)(sub % 62);
   c.seti("bits", B);
   std::map<std::string, long long> cnt;
-  Paths64 T; for (int i = 0; i < 48; ++i) T.push_back(gen_tri_item(r, B, cnt));
+  Paths64 T; for (int i = 0; i < 48 * mul; ++i) T.push_back(gen_tri_item(r, B, cnt));
   for (auto& e : cnt) ctx.count(e.first, e.second);
   ctx.count("tri_gen_bundles_bits_" + std::string(B < 10 ? "0" : "") + std::to_string(B / 10 * 10) + "s");
   c.p64["T"] = T; return c;
 }
 
 // ---- PointInPolygon
-static Case gen_pip(Rng& r, uint64_t sub, Ctx& ctx) {
-  Case c; c.set("kind", "pip"); c.seti("bundle", 1);
+static void gen_pip_one(Rng& r, uint64_t sub, Ctx& ctx, Case& c) {
   static const int64_t scales[] = { 1, 1, 2, 3, 7, 1000, 1 << 10, 1 << 16, 1 << 20, 1 << 22 };
   int64_t s = scales[sub % 10];
   const int64_t LIM = 1ll << 25;
@@ -686,10 +689,13 @@ static Case gen_pip(Rng& r, uint64_t sub, Ctx& ctx) {
     }
     for (int i = 0; i < 12; ++i) Q.emplace_back(clampi(ox + r.range(-s, 9 * s), -LIM, LIM), clampi(oy + r.range(-s, 9 * s), -LIM, LIM));
   }
-  c.seti("scale", s);
   ctx.count("pip_gen_scale_" + std::to_string(s));
   ctx.count("pip_gen_horizontal_edges", feat_h); ctx.count("pip_gen_repeated_points", feat_rep); ctx.count("pip_gen_spikes", feat_spike);
-  c.p64["POLY"] = Paths64(1, poly); c.p64["Q"] = Paths64(1, Q);
+  c.p64["POLY"].push_back(poly); c.p64["Q"].push_back(Q);
+}
+static Case gen_pip(Rng& r, uint64_t sub, Ctx& ctx, int mul) {
+  Case c; c.set("kind", "pip"); c.seti("bundle", 1);
+  for (int k = 0; k < mul; ++k) gen_pip_one(r, sub * (uint64_t)mul + (uint64_t)k, ctx, c);
   return c;
 }
 
@@ -799,25 +805,25 @@ static Path64 gen_isect_item(Rng& r, int m, std::map<std::string, long long>& cn
   if (r.coin()) return seg_item(c, d, a, b);
   return seg_item(a, b, c, d);
 }
-static Case gen_isect(Rng& r, uint64_t sub, Ctx& ctx) {
+static Case gen_isect(Rng& r, uint64_t sub, Ctx& ctx, int mul) {
   Case c; c.set("kind", "isect"); c.seti("bundle", 1);
   int m = kIsectMag[sub % kIsectMagN];
   c.seti("mag", m);
   std::map<std::string, long long> cnt;
-  Paths64 S; for (int i = 0; i < 32; ++i) S.push_back(gen_isect_item(r, m, cnt));
+  Paths64 S; for (int i = 0; i < 32 * mul; ++i) S.push_back(gen_isect_item(r, m, cnt));
   for (auto& e : cnt) ctx.count(e.first, e.second);
   c.p64["SEG"] = S; return c;
 }
 
 // ---- Area
-static Case gen_area(Rng& r, uint64_t sub, Ctx& ctx) {
+static Case gen_area(Rng& r, uint64_t sub, Ctx& ctx, int mul) {
   Case c; c.set("kind", "area"); c.seti("bundle", 1);
   static const int mags[] = { 3, 10, 20, 26, 31, 40, 52, 59, 61 };
   int m = mags[sub % 9];
   c.seti("mag", m);
   ctx.count("area_gen_mag_2^" + std::to_string(m));
   const int64_t M = 1ll << m;
-  int np = r.irange(1, 4);
+  int np = r.irange(1, 6 * mul);
   Paths64 PP;
   for (int k = 0; k < np; ++k) {
     int nmax = m > 59 ? 6 : 24;
@@ -856,7 +862,7 @@ static void build_schedule(Ctx& ctx) {
     else if (k == "tri") g_sched.insert(g_sched.end(), 3, K_TRI);
     else if (k == "pip") g_sched.insert(g_sched.end(), 3, K_PIP);
     else if (k == "isect") g_sched.insert(g_sched.end(), 4, K_ISECT);
-    else if (k == "area") g_sched.insert(g_sched.end(), 1, K_AREA);
+    else if (k == "area") g_sched.insert(g_sched.end(), 2, K_AREA);
     else { fprintf(stderr, "mon_c18: unknown kind %s\n", k.c_str()); exit(2); }
   }
   if (g_sched.empty()) { fprintf(stderr, "mon_c18: empty --kinds\n"); exit(2); }
@@ -907,14 +913,17 @@ void vf_case(Ctx& ctx, uint64_t i) {
   if (g_sched.empty()) build_schedule(ctx);
   int kind = g_sched[i % g_sched.size()];
   uint64_t sub = i / g_sched.size();
+  // bundle size multiplier: thorough bundles are 4x larger (keeps the number of distinct-case hashes manageable)
+  int mul = (int)ctx.optint("bundle", ctx.quick() ? 1 : 4);
+  if (mul < 1) mul = 1;
   Case c;
   switch (kind) {
-    case K_MUL: c = gen_mul(ctx.rng, sub); break;
-    case K_PAE: c = gen_pae(ctx.rng, sub, ctx); break;
-    case K_TRI: c = gen_tri(ctx.rng, sub, ctx); break;
-    case K_PIP: c = gen_pip(ctx.rng, sub, ctx); break;
-    case K_ISECT: c = gen_isect(ctx.rng, sub, ctx); break;
-    default: c = gen_area(ctx.rng, sub, ctx); break;
+    case K_MUL: c = gen_mul(ctx.rng, sub, mul); break;
+    case K_PAE: c = gen_pae(ctx.rng, sub, ctx, mul); break;
+    case K_TRI: c = gen_tri(ctx.rng, sub, ctx, mul); break;
+    case K_PIP: c = gen_pip(ctx.rng, sub, ctx, mul); break;
+    case K_ISECT: c = gen_isect(ctx.rng, sub, ctx, mul); break;
+    default: c = gen_area(ctx.rng, sub, ctx, mul); break;
   }
   judge(ctx, c, false);
 }
